@@ -1,0 +1,14 @@
+//go:build verif
+
+package ggql
+
+// VerifYield, when set, is called at the yield points used by the verification harness in /verif
+// (immediately before each acquisition of the subscription registry lock, and at the lazy
+// reflection-binding sites). It is only compiled with the "verif" build tag.
+var VerifYield func(site string)
+
+func verifYield(site string) {
+	if f := VerifYield; f != nil {
+		f(site)
+	}
+}
